@@ -3,6 +3,7 @@ import BoltonsVerif.C05.AcceptProofs
 import BoltonsVerif.C05.AcceptMore
 import BoltonsVerif.C05.AcceptHist
 import BoltonsVerif.C05.AcceptEnv
+import BoltonsVerif.C05.Classify
 import BoltonsVerif.C05.AcceptRef
 import BoltonsVerif.C04.Props
 import BoltonsVerif.Generated.C05_Consts
@@ -856,6 +857,80 @@ theorem accept_ignores_probes (cfg : Cfg) (raises ok : Bool) (content : Bytes) (
     os.chdir, shutil.*, pathlib.*, tempfile.*, subprocess.* ...): the observed traces are complete -/
 theorem source_calls_are_recorded : Gen.unseenCalls = [] := by decide
 
+/-! ### the classification of recorded calls (`C05.classify`, Classify.lean)
+
+The driver evaluates `Accept` / `replay` on a trace that equals `classify` of the raw facts the recorder noted about
+every call (checked on every case: `cls=ok`).  What the reading of the `accepted_*` theorems relies on: -/
+
+/-- **"Listed step" means the same thing on both sides**: when a recorded call acts on the part file (its event is
+    one of: create, chmod, write, flush, fsync, close, os.close, rename / link onto the destination, unlink), the flag
+    `listed` with which a FAILURE of that call is recorded (`listedKind`: the call's NAME is one of those under which the
+    steps "creating or chmod-ing the part file, write, flush, fsync, close, link/rename" appear) is the model's `listedEv`
+    of the event the call performs when it goes through - the flag the transliteration uses for its own failures -/
+theorem classify_listed_is_model_listed (r : Raw) (hn : eventOf r ≠ .noop) (hu : eventOf r ≠ .unknown)
+    (hd : ∀ d, eventOf r ≠ .writeDest d) (ht : eventOf r ≠ .truncDest) (hud : eventOf r ≠ .unlinkDest) :
+    listedKind r.kind = listedEv (eventOf r) := by
+  obtain ⟨k, roles, ok, inj, wr, creat, excl, trunc, created, samedir, onFd, wasClosed, performed, appeared, mode, data⟩ := r
+  have hd' := hd data
+  revert hn hu hd' ht hud
+  clear hd
+  cases k <;> simp only [eventOf, listedKind, listedEv] <;> (repeat' split) <;> simp_all
+
+/-- **A publication is a rename / replace / link of the part name onto the destination name, and nothing else is** -/
+theorem classify_publication_iff (r : Raw) :
+    isPub (eventOf r) = true ↔ ((r.kind = .rename ∨ r.kind = .link) ∧ r.roles = [.part, .dest]) := by
+  obtain ⟨k, roles, ok, inj, wr, creat, excl, trunc, created, samedir, onFd, wasClosed, performed, appeared, mode, data⟩ := r
+  constructor
+  · intro h
+    have key : ∀ ev, isPub ev = true → ev = .renamePartDest ∨ ev = .linkPartDest := by
+      intro ev hev; cases ev <;> simp [isPub] at hev ⊢
+    rcases key _ h with h | h <;>
+      (cases k <;> simp only [eventOf] at h <;> (repeat' (split at h)) <;> simp_all)
+  · rintro ⟨hk | hk, hr⟩ <;> simp only at hk hr <;> subst hk <;> subst hr <;>
+      simp [eventOf, isPub, Raw.touches]
+
+/-- **A call on an unrelated path is a probe**: whatever it is called, a call that touches neither the destination nor
+    the part file name is observed as a successful call without effect - or, when it failed on its own, as an unlisted
+    failure... only if its name is not one of the listed steps; either way it has no effect on the abstract file system -/
+theorem classify_unrelated_no_effect (r : Raw) (m : M) (ht : r.touches = false) (hc : r.closedAnyway = false) :
+    ∃ m', replayStep m (classify1 r).1 = some m' ∧ m'.fs = m.fs ∧ m'.tr = m.tr ++ (if r.ok then [.noop] else []) := by
+  have hev : eventOf r = .noop := by
+    unfold eventOf
+    split; · rfl
+    split; · rfl
+    split; · rfl
+    simp [ht]
+  unfold classify1
+  cases hok : r.ok with
+  | true => simp [hev, replayStep, exe, FS.step]
+  | false => simp [hc, replayStep]
+
+/-- **A call that reported an error changes nothing** on the abstract file system (except the `close()` that closed all the same) -/
+theorem classify_failure_no_effect (r : Raw) (m : M) (hok : r.ok = false) (hc : r.closedAnyway = false) :
+    ∃ m', replayStep m (classify1 r).1 = some m' ∧ m'.fs = m.fs ∧ m'.tr = m.tr := by
+  simp [classify1, hok, hc, replayStep]
+
+-- the records of a plain save over an existing file whose fsync is made to fail classify to `obsFsyncFails`
+def rawBase : Raw := ⟨.other, [], true, false, false, false, false, false, false, true, false, false, false, false, 0, []⟩
+def rawFsyncFails : List Raw :=
+  [{ rawBase with kind := kindOf "os.stat", roles := [.dest] },
+   { rawBase with kind := kindOf "os.open", roles := [.part], wr := true, creat := true, excl := true, created := true, mode := 0o640 },
+   { rawBase with kind := kindOf "os.fdopen", roles := [.part] },
+   { rawBase with kind := kindOf "os.chmod", roles := [.part], mode := 0o640 },
+   { rawBase with kind := kindOf "file.write", roles := [.part], wr := true, data := [78, 69] },
+   { rawBase with kind := kindOf "file.write", roles := [.part], wr := true, data := [87] },
+   { rawBase with kind := kindOf "file.flush", roles := [.part], wr := true },
+   { rawBase with kind := kindOf "os.fsync", roles := [.part], ok := false, inj := true },
+   { rawBase with kind := kindOf "file.close", roles := [.part], wr := true },
+   { rawBase with kind := kindOf "os.unlink", roles := [.part] }]
+-- the same steps under their other names classify to the same observations
+example : eventOf { rawBase with kind := kindOf "os.replace", roles := [.part, .dest] } = .renamePartDest ∧
+    eventOf { rawBase with kind := kindOf "os.fchmod", roles := [.part], mode := 0o600 } = .chmodPart 0o600 ∧
+    eventOf { rawBase with kind := kindOf "os.remove", roles := [.part] } = .unlinkPart ∧
+    eventOf { rawBase with kind := kindOf "os.rename", roles := [.dest, .part] } = .unknown ∧
+    eventOf { rawBase with kind := kindOf "os.chmod", roles := [.dest], mode := 0o600 } = .unknown ∧
+    listedKind (kindOf "os.replace") = true ∧ listedKind (kindOf "os.unlink") = false ∧ listedKind (kindOf "os.stat") = false := by decide
+
 /-! ### non-vacuity of the acceptance theorems: concrete observed traces -/
 
 /-- what the code does for a plain save over an existing file (mode 0o640) when `os.fsync` is made to fail:
@@ -935,5 +1010,8 @@ example : Accept {} false true [78, 69, 87] 0o022 (some 0o600) obsOtherOrder = f
 example : Accept { overwrite := false } false false [78] 0o022 none
     [.ok .noop, .ok (.openPart true true 0o666), .ok .noop, .ok (.write [78] 0), .ok .flush, .ok .fsync, .ok .close,
      .appear, .fail true false false, .ok .unlinkPart] = true := by decide
+
+-- the raw records of the run in which fsync fails classify to `obsFsyncFails`
+example : (rawFsyncFails.flatMap classify).map Prod.fst = obsFsyncFails := by decide
 
 end C05
